@@ -824,3 +824,62 @@ def instances(tier):
     out = _c04_instances_5(tier)
     out.append(Inst(among_timers, {}, budget=120 if tier == "quick" else 600))
     return out
+
+
+# ------------------------------------------------------------------ a group of IOCBs
+@meta(bounds="an IOGroup of three confirmed requests (two to one peer - queued one behind the other -, one to a second peer), "
+             "fates symbolic over {ack, error, no answer}; the group's completion callback is made exactly once, not before the "
+             "last member has its own outcome, every member has exactly one outcome of the right kind, nothing is left",
+      outside="groups of groups; IOGroup.abort",
+      stubs=["virtual clock (task._time)", "asyncore.loop -> clock advance", "task._Trigger -> wake flag", "fresh singletons per path"])
+def iocb_group(d):
+    from bacpypes.iocb import IOGroup
+    w = World()
+    lan = nl.FaultLAN([], world=w)
+    cdev = nl.make_device("c", 10, numberOfApduRetries=0, apduTimeout=APDU_TIMEOUT)
+    client = nl.IOStack(cdev, lan)
+    servers = [nl.AppStack(nl.make_device("s", 20), lan, app_timeout=APP_TIMEOUT),
+               nl.AppStack(nl.make_device("t", 21), lan, app_timeout=APP_TIMEOUT)]
+    fates = [d.pick(["ack", "error", "silent"], 'fate%d' % i) for i in range(3)]
+    for srv in servers:
+        def handler(apdu, srv=srv, orig=srv.do_ConfirmedPrivateTransferRequest):
+            srv.pt_mode = fates[bytes(apdu.serviceParameters.cast_out(nl.OctetString))[0]]
+            return orig(apdu)
+        srv.do_ConfirmedPrivateTransferRequest = handler
+    group = IOGroup()
+    group_calls = []
+    ios = []
+    for i, srv in enumerate((servers[0], servers[0], servers[1])):
+        io = nl.IOCB(nl.private_transfer(srv.address, bytes([i])))
+        io.calls = []
+        io.add_callback(lambda io_: io_.calls.append((io_.ioState, io_.ioResponse, io_.ioError, nl.now())))
+        ios.append(io)
+        group.add(io)
+    group.add_callback(lambda g: group_calls.append(([len(x.calls) for x in ios], nl.now())))
+    for io in ios:
+        client.request_io(io)
+    w.run()
+    want = {"ack": "ack", "error": "error", "silent": "abort"}
+    for i, io in enumerate(ios):
+        if len(io.calls) != 1:
+            raise Violation("iocb-completion-count", index=i, n=len(io.calls), fates=fates, grouped=True)
+        state, resp, err, t = io.calls[0]
+        kind = nl.outcome_kind(resp if state == IO_COMPLETED else err)
+        if kind != want[fates[i]]:
+            raise Violation("iocb-outcome", index=i, got=kind, want=want[fates[i]], fates=fates, grouped=True)
+    if len(group_calls) != 1:
+        raise Violation("group-completion-count", n=len(group_calls), fates=fates)
+    if group_calls[0][0] != [1, 1, 1]:
+        raise Violation("group-completed-before-its-members", members_done=group_calls[0][0], fates=fates)
+    if nl.residue(client) or any(nl.residue(x) for x in servers) or not w.idle():
+        raise Violation("residue", client=nl.residue(client), grouped=True)
+    d.reach()
+
+
+_c04_instances_6 = instances
+
+
+def instances(tier):
+    out = _c04_instances_6(tier)
+    out.append(Inst(iocb_group, {}, budget=120 if tier == "quick" else 600))
+    return out
